@@ -108,3 +108,15 @@ CLAIMS["C20"] = (
     "1e-10, i.e. no result depends on memory outside the arrays passed in.",
     "NUMBA_BOUNDSCHECK is numba's switch, not a hook. One problem per data kind and shape.",
     "DESIGN.md §4 C20")
+CLAIMS["C19"] = (
+    "exploration",
+    "bounded exhaustive enumeration of degenerate inputs x compositions x knob variants in self-managed workers with CPU horizons (non-termination and crashes are observations)",
+    "For every accepted compile domain (all 9 solvers, dense and CSC): every placement of an all-zero column in three designs, a "
+    "zero group, the all-zero matrix, duplicated / opposite / dependent / constant columns, 2^-10..2^10 rescaled columns, n<p, a "
+    "single feature, two samples x targets {generic, zero, constant} x alphas x strategy / intercept / greedy / p0 variants x "
+    "cold and warm starts: the outcome must be an explanatory ValueError or finite output that meets the certificate and "
+    "has exact zeros on penalised all-zero columns whenever convergence is claimed; default-budget runs are watched by a CPU "
+    "horizon.",
+    "Exact zeros are demanded from warm starts only for convex separable penalties (block penalties shrink geometrically, flat "
+    "non-convex penalties are stationary anywhere beyond gamma*alpha). Poisson/Gamma/Cox not run on rescaled designs.",
+    "DESIGN.md §4 C19")
